@@ -412,9 +412,11 @@ func distCase(c *Case, lean *LeanDriver) Verdict {
 	data := c.Data()
 	parts := c.Parts
 	if len(parts) == 0 {
-		parts = [][]int{{}}
+		// a case of a profile without partitions: deal the series out to 2-4 engines
+		np := 2 + int((c.Start%3+3)%3)
+		parts = make([][]int, np)
 		for i := range data {
-			parts[0] = append(parts[0], i)
+			parts[i%np] = append(parts[i%np], i)
 		}
 	}
 	var engines []api.RemoteEngine
